@@ -274,6 +274,7 @@ fn pointwise(ctx: &mut Ctx, p: &Pm, integ: Integrator, nu: usize, nv: usize) {
   };
   let mut violation: Option<(f64, usize, f64)> = None;
   let mut unconverged = 0usize;
+  let mut within_quadrature_error = 0usize;
   let exceeding: Vec<(f64, usize)> = ratios.iter().cloned().filter(|r| r.0 > 1.0 + 1e-9).collect();
   if !exceeding.is_empty() {
     if let Some(jr) = guard(|| p.s.joint_spectrum(refined)) {
@@ -284,8 +285,15 @@ fn pointwise(ctx: &mut Ctx, p: &Pm, integ: Integrator, nu: usize, nv: usize) {
         if let Some((c2, s2, i2)) = r {
           let agree = |a: f64, b: f64| (a - b).abs() <= 1e-3 * b.abs();
           if agree(ju(c[*k]), c2) && agree(ju(ss[*k]), s2) && agree(ju(si[*k]), i2) {
-            violation = Some((*ratio, *k, c2 / s2.min(i2)));
-            break;
+            let refined_ratio = c2 / s2.min(i2);
+            if refined_ratio > 1.0 + 1e-9 {
+              violation = Some((*ratio, *k, refined_ratio));
+              break;
+            }
+            // converged to 1e-3 but the excess itself is smaller than the quadrature error and disappears under
+            // refinement (heralding ratio ≈ 1, excess ~1e-6): not a violation
+            within_quadrature_error += 1;
+            continue;
           }
         }
         unconverged += 1;
@@ -294,6 +302,9 @@ fn pointwise(ctx: &mut Ctx, p: &Pm, integ: Integrator, nu: usize, nv: usize) {
   }
   if unconverged > 0 {
     ctx.count(&format!("pointwise/exceeding-points-not-converged/{}", name));
+  }
+  if within_quadrature_error > 0 {
+    ctx.count(&format!("pointwise/excess-within-quadrature-error/{}", name));
   }
   ctx.count(&format!("pointwise/setups/{}", name));
   let (worst, at, refined_ratio) = match violation {
@@ -595,6 +606,12 @@ fn limit_case(ctx: &mut Ctx) {
     }
   };
   let (w0s, w0i) = (s.signal.frequency(), s.idler.frequency());
+  // "at perfect phase matching": the optimum calls must actually have found Δk_z = 0 (sinc² = 1 − x²/3: x ≤ 1e-3)
+  let x0 = dkz(&s, w0s, w0i) * 0.5 * s.crystal_setup.length.value_unsafe;
+  if !(x0.abs() <= 1e-3) {
+    ctx.count("limit/skip-not-perfectly-phase-matched");
+    return;
+  }
   let integ = if ctx.rng.coin() { Integrator::Simpson { divs: 200 } } else { Integrator::GaussLegendre { degree: 40 } };
   let js = s.joint_spectrum(integ);
   let c = ju(js.jsi(w0s, w0i));
